@@ -163,4 +163,202 @@ theorem nextWake_nw (b : BCtx) (j : Nat) (sd : Side) (h : (nextWake b j).nw sd) 
   · exact h
   · exact runK_nw _ _ h
 
+theorem pcu_setIdx (s : State) (sd : Side) (v u : Nat) (p : Pc) : ((s.setIdx sd v).setPc u p).pc u = p := by
+  simp [State.setPc, upd]
+
+theorem split_sd (c : Cfg) (sd : Side) (i n : Nat) :
+    (splitSegs c sd i n).1.sd = sd ∧ ∀ g2, (splitSegs c sd i n).2 = some g2 → g2.sd = sd := by
+  simp only [splitSegs]; split
+  · exact ⟨rfl, fun g2 h => by cases h⟩
+  · exact ⟨rfl, fun g2 h => by cases h; rfl⟩
+
+theorem blockEntry_flags (c : Cfg) (sd : Side) (n : Nat) (single wt wk : Bool) (i : Nat) (sd' : Side) :
+    ((blockEntry c sd n single wt wk i).mf sd' → wt = true ∧ sd' = sd) ∧
+    ((blockEntry c sd n single wt wk i).nw sd' → wk = false ∧ sd' = sd) := by
+  obtain ⟨h1, h2⟩ := split_sd c sd i n
+  unfold blockEntry; split
+  · exact ⟨id, id⟩
+  · unfold startWaitSeg
+    cases hg : (splitSegs c sd i n).2 with
+    | none =>
+      split <;> constructor <;> intro h
+      · cases h
+      · rcases h with h | h
+        · exact ⟨h.1, by rw [h.2, h1]⟩
+        · cases h
+      · rcases h with h | h
+        · exact ⟨h.1, by rw [h.2, h1]⟩
+        · cases h
+      · rcases h with h | h
+        · exact ⟨h.1, by rw [h.2, h1]⟩
+        · cases h
+    | some g2 =>
+      have e2 := h2 g2 hg
+      split <;> constructor <;> intro h
+      · exact ⟨h.1, by rw [h.2, e2]⟩
+      · rcases h with h | h
+        · exact ⟨h.1, by rw [h.2, h1]⟩
+        · exact ⟨h.1, by rw [h.2, e2]⟩
+      · rcases h with h | h
+        · exact ⟨h.1, by rw [h.2, h1]⟩
+        · exact ⟨h.1, by rw [h.2, e2]⟩
+      · rcases h with h | h
+        · exact ⟨h.1, by rw [h.2, h1]⟩
+        · exact ⟨h.1, by rw [h.2, e2]⟩
+theorem pcu_state (s1 : State) (u : Nat) (p : Pc) : (s1.setPc u p).pc u = p := setPc_self s1 u p
+
+/-- the flags carried by a thread only shrink along its own steps -/
+theorem step_flags (c : Cfg) (s s' : State) (u : Nat) (inp : Inp) (l : Act)
+    (h : stepThread c s u inp = some (s', l)) (hw : (s.pc u).wf c) (sd : Side) :
+    ((s'.pc u).mf sd → (s.pc u).mf sd) ∧ ((s'.pc u).nw sd → (s.pc u).nw sd) := by
+  cases hp : s.pc u
+  case idle => simp [stepThread, hp] at h
+  case retd r => simp [stepThread, hp] at h
+  case idxRmw sd0 n single wt wk =>
+    have hs' : s'.pc u = blockEntry c sd0 n single wt wk (s.idx sd0) := by
+      simp only [stepThread, hp, Option.some.injEq, Prod.mk.injEq] at h
+      rw [← h.1, pcu_state]; simp only [blockEntry]; cases single <;> first | rfl | simp
+    rw [hs']; exact blockEntry_flags c sd0 n single wt wk _ sd
+  case idxSt sd0 n single wt wk i0 =>
+    have hs' : s'.pc u = blockEntry c sd0 n single wt wk i0 := by
+      simp only [stepThread, hp, Option.some.injEq, Prod.mk.injEq] at h
+      rw [← h.1, pcu_state]; simp only [blockEntry]; cases single <;> first | rfl | simp
+    rw [hs']; exact blockEntry_flags c sd0 n single wt wk _ sd
+  case wait x w =>
+    have same : ∀ (s1 : State) (w' : WS), s' = s1.setPc u (.wait x w') →
+        ((s'.pc u).mf sd → (Pc.wait x w).mf sd) ∧ ((s'.pc u).nw sd → (Pc.wait x w).nw sd) := by
+      intro s1 w' e; rw [e, pcu_state]; exact ⟨id, id⟩
+    have head : ∀ (s1 : State) (x' : WCtx) (cur : Nat), x'.mf = x.mf → x'.nw = x.nw → s' = s1.setPc u (blockHead x' cur) →
+        ((s'.pc u).mf sd → (Pc.wait x w).mf sd) ∧ ((s'.pc u).nw sd → (Pc.wait x w).nw sd) := by
+      intro s1 x' cur e1 e2 e; rw [e, pcu_state, (blockHead_flags x' cur).1, (blockHead_flags x' cur).2, e1, e2]
+      exact ⟨id, id⟩
+    have after : ∀ (s1 : State), s' = s1.setPc u (afterWait c x) →
+        ((s'.pc u).mf sd → (Pc.wait x w).mf sd) ∧ ((s'.pc u).nw sd → (Pc.wait x w).nw sd) := by
+      intro s1 e; rw [e, pcu_state]; exact ⟨afterWait_mf c x sd, afterWait_nw c x sd⟩
+    cases w <;> simp only [stepThread, hp] at h
+    case clk0 cur =>
+      cases x with
+      | timed wk i num a b =>
+        simp only [Option.some.injEq, Prod.mk.injEq] at h
+        exact head { s with now := inp.now } (.timed wk i num inp.now b) cur rfl rfl h.1.symm
+      | single sd0 i wt wk => cases h
+      | batch g j wt wk k => cases h
+    case clk1 cur =>
+      cases x with
+      | timed wk i num a b =>
+        simp only [Option.some.injEq, Prod.mk.injEq] at h
+        obtain ⟨h, -⟩ := h
+        split at h
+        · exact after { s with now := inp.now } h.symm
+        · exact head { s with now := inp.now } (.timed wk i num a (b - (inp.now - a))) cur rfl rfl h.symm
+      | single sd0 i wt wk => cases h
+      | batch g j wt wk k => cases h
+    all_goals
+      (repeat' split at h) <;> first
+        | (cases h; done)
+        | (simp only [Option.some.injEq, Prod.mk.injEq] at h
+           first
+             | exact after _ h.1.symm
+             | exact head _ _ _ rfl rfl h.1.symm
+             | exact same _ _ h.1.symm)
+  case nIdx sd0 x num =>
+    obtain ⟨h1, h2⟩ := split_sd c sd0 (s.idx sd0) num
+    simp only [stepThread, hp, Option.some.injEq, Prod.mk.injEq] at h
+    rw [← h.1, pcu_state]
+    split
+    · constructor
+      · exact fun hh => absurd hh (tryDecide_mf _ _ _ _)
+      · intro hh; rcases tryDecide_nw _ _ _ _ hh with h3 | h3
+        · exact Or.inl ⟨h3.1, by rw [h3.2, h1]⟩
+        · exact Or.inr h3
+    · constructor
+      · exact fun hh => hh
+      · intro hh; rcases hh with h3 | h3
+        · exact Or.inl ⟨h3.1, by rw [h3.2, h1]⟩
+        · exact Or.inr h3
+  case nVer x g j =>
+    simp only [stepThread, hp, Option.some.injEq, Prod.mk.injEq] at h
+    rw [← h.1, pcu_state]
+    (repeat' split) <;> first
+      | exact ⟨id, id⟩
+      | exact ⟨fun hh => absurd hh (tryDecide_mf _ _ _ _), fun hh => tryDecide_nw _ _ _ _ hh⟩
+  case nCas x g n =>
+    rw [hp] at hw
+    have hl : linked g.sd (g.idx + g.n) x.g2 := hw.2.2.2.1
+    simp only [stepThread, hp] at h
+    (repeat' split at h) <;> simp only [Option.some.injEq, Prod.mk.injEq] at h <;> rw [← h.1, pcu_state]
+    all_goals first
+      | (constructor
+         · exact fun hh => absurd hh (tryK_mf _ _ _ _)
+         · intro hh; rcases hh with h3 | h3
+           · exact Or.inl h3
+           · exact tryK_nw x g n hl sd h3)
+      | (constructor
+         · exact fun hh => absurd (runK_mf _ _ hh) (finishTry_mf _ _ _)
+         · exact fun hh => Or.inr (finishTry_nw _ _ _ (runK_nw _ _ hh)))
+  case bSt b j =>
+    simp only [stepThread, hp, Option.some.injEq, Prod.mk.injEq] at h
+    rw [← h.1, pcu_state]
+    split
+    · exact ⟨id, id⟩
+    · exact ⟨afterStores_mf b sd, fun hh => Or.inr (afterStores_nw b sd hh)⟩
+  case wLd b j =>
+    simp only [stepThread, hp, Option.some.injEq, Prod.mk.injEq] at h
+    rw [← h.1, pcu_state]
+    (repeat' split) <;> first
+      | exact ⟨nextWake_mf b j sd, nextWake_nw b j sd⟩
+      | exact ⟨id, id⟩
+  case wCas b j cur =>
+    simp only [stepThread, hp] at h
+    split at h <;> simp only [Option.some.injEq, Prod.mk.injEq] at h <;> rw [← h.1, pcu_state]
+    · exact ⟨id, id⟩
+    · exact ⟨nextWake_mf b j sd, nextWake_nw b j sd⟩
+  case wWake b j =>
+    simp only [stepThread, hp, Option.some.injEq, Prod.mk.injEq] at h
+    rw [← h.1]; simp only [upd_self]
+    exact ⟨nextWake_mf b j sd, nextWake_nw b j sd⟩
+  case fSc b =>
+    simp only [stepThread, hp, Option.some.injEq, Prod.mk.injEq] at h
+    rw [← h.1, pcu_state]
+    split
+    · exact ⟨runK_mf _ sd, runK_nw _ sd⟩
+    · exact ⟨id, id⟩
+  case fRel b =>
+    simp only [stepThread, hp, Option.some.injEq, Prod.mk.injEq] at h
+    rw [← h.1, pcu_state]
+    split
+    · exact ⟨afterStores_mf b sd, fun hh => Or.inr (afterStores_nw b sd hh)⟩
+    · exact ⟨id, id⟩
+  case sWake sd0 i r =>
+    simp only [stepThread, hp, Option.some.injEq, Prod.mk.injEq] at h
+    rw [← h.1]; simp only [upd_self]
+    exact ⟨fun hh => (by cases hh), fun hh => (by cases hh)⟩
+  case cVer cc =>
+    simp only [stepThread, hp, Option.some.injEq, Prod.mk.injEq] at h
+    rw [← h.1, pcu_state]
+    refine ⟨?_, fun _ => trivial⟩
+    (repeat' split) <;> intro hh <;> first | (cases hh; done) | skip
+    all_goals (rename_i hr; simp only [Pc.mf] at hh; split at hh <;> cases hh)
+  case cNeed cc =>
+    simp only [stepThread, hp, Option.some.injEq, Prod.mk.injEq] at h
+    rw [← h.1, pcu_state]
+    refine ⟨?_, fun _ => trivial⟩
+    (repeat' split) <;> intro hh <;> cases hh
+  all_goals
+    simp only [stepThread, hp] at h
+    (repeat' split at h) <;> first
+      | (cases h; done)
+      | (simp only [Option.some.injEq, Prod.mk.injEq] at h
+         rw [← h.1]
+         first
+           | (rw [pcu_state]; first
+               | exact ⟨id, id⟩
+               | exact ⟨fun hh => (by cases hh), fun hh => (by cases hh)⟩
+               | (refine ⟨fun hh => ?_, fun hh => ?_⟩ <;> revert hh <;> (repeat' split) <;> intro hh <;>
+                    first | exact hh | (cases hh; done) | trivial))
+           | (rw [pcu_setIdx]; first
+               | exact ⟨id, id⟩
+               | exact ⟨fun hh => (by cases hh), fun hh => (by cases hh)⟩
+               | exact ⟨fun hh => (by cases hh), fun _ => trivial⟩))
+
 end Babylon.BQ
